@@ -475,7 +475,11 @@ class WebSocket:
 
             elif frame.opcode == ABNF.OPCODE_CLOSE:
                 if self.connected:
-                    self.send_close()
+                    try:
+                        self.send_close()
+                    except (WebSocketException, OSError):
+                        # the peer is gone already: its close frame still ends the connection
+                        pass
                 return frame.opcode, frame
             elif frame.opcode == ABNF.OPCODE_PING:
                 if len(frame.data) < 126:
